@@ -183,7 +183,15 @@ def verify_function(contract, registry, label_prefix="", feas_timeout_ms=250):
             done = eng.explore(run)
         finally:
             _ops.OPAQUE_NONLINEAR[0] = False
-        stale = [k for k in contract.ghost if k not in eng.ghost_hits]
+        import ast as _ast
+        in_source = set()
+        for fq in [contract.qual] + [k.split(":")[1] for k in contract.inline_callees if k.split(":")[0] == contract.module]:
+            fn_ = mod.functions.get(fq)
+            for st in (_ast.walk(fn_) if fn_ is not None else ()):
+                if isinstance(st, _ast.stmt):
+                    in_source.add("after:" + " ".join(mod.segment(st).split()))
+        # an anchor is stale when its statement is gone from the source -- not when no explored path happens to reach it
+        stale = [k for k in contract.ghost if k not in eng.ghost_hits and k not in in_source]
         rep.stale_ghost = stale      # anchors that no longer occur in the body: the ghost update is simply not made; obligations decide
         rep.vacuous_calls = sorted(eng.vacuous_calls)
         rep.paths = len(done)
